@@ -49,8 +49,11 @@ class Lab:
             if 'unwinding' in d:
                 self.chk.unwinding['assertions'] += 1
                 if v.status == 'unsat': self.chk.unwinding['unsat'] += 1
-            if v.status != 'unsat':
-                self.chk.obligation(f'side[{d}] n={self.n} c={self.c}', 'E-MIR/merge', 'inconclusive' if 'unwinding' in d or v.status == 'unknown' else 'violated', v.seconds)
+            if v.status == 'unknown':
+                # not decided in time: the result term then only covers executions within the bound (a weaker, bounded claim)
+                self.chk.obligation(f'side[{d}] n={self.n} c={self.c} [solver timeout: obligations on this result hold for executions within the loop bound only]', 'E-MIR/merge', 'timeout', v.seconds)
+            elif v.status != 'unsat':
+                self.chk.obligation(f'side[{d}] n={self.n} c={self.c}', 'E-MIR/merge', 'inconclusive' if 'unwinding' in d else 'violated', v.seconds)
                 if v.status == 'sat' and 'unwinding' not in d:
                     raise Unsupported(f'side condition reachable: {d}')
         self.last_exec = ex
